@@ -54,6 +54,14 @@ CLAIMED = {
   text="pdu.encode_pdu (generator, symbolic loop) is proved to emit a first fragment with the 7-byte header and size-7 body bytes, continuations with control 0x80 + tid, every fragment <= fragment size, and payloads that a conformant accessory reassembles to exactly the body, for every body and fragment size >= 8; decode_pdu / decode_pdu_continuation are proved to reject exactly wrong tid / missing continuation flag / undefined status and to return the header-layout slices otherwise.",
   note="Trusted: struct pack/unpack model, pyvc semantics. BLE _write_pdu/_read_pdu and the CoAP batch codecs are not yet under contract.",
   ref="4/C17"),
+ "C19": dict(
+  text="mDNS async_find: proved that for a not-yet-known id a waiter is registered under the lower-cased id and the timer armed with the caller's timeout with NO suspension point in between, that the awaited object is that future, that the discovery it is woken with is returned, that a timeout becomes AccessoryNotFoundError and the timer is cancelled on every exit; _async_handle_loaded_service_info completes EVERY pending waiter under the id with the stored discovery, leaves done/other-id waiters alone, ignores invalid records and never raises (0..3 waiters in each state, with/without known discovery and pairing); _async_on_timeout fails only a pending waiter; BLE async_find registers the future it awaits and unregisters it on every exit (defect repaired); HomeKitAdvertisement.from_manufacturer_data raises only ValueError for EVERY byte string and returns the HAP-BLE field slices; BlePairing._update_cached_state_num never raises with or without cached state (defect repaired).",
+  note="asyncio futures/timers are stubs; waiter lists are small representative lists. Not yet under contract: HomeKitService.from_service_info, the full BLE _device_detected body (covered by the labelled bounded native stand-in: every prefix of valid advertisements + random bytes x three pairing situations, and a real waiter wake-up) and the aggregate Controller.async_find.",
+  ref="4/C19"),
+ "C20": dict(
+  text="Controller.save_data over a ghost file system (open('w') truncates at once, a write may be cut at any prefix, os.replace atomic, crash between any two events): proved that at EVERY crash point the pairing file holds its old content or the complete new text, and that the text written is the JSON of {alias: pairing_data} for every alias (defect repaired: in-place write); load_data parses exactly this file, hands every saved pairing to load_pairing unchanged (also after a skipped one) and lets only ConfigLoadingError escape; CharacteristicCacheFile.__init__ never raises and starts cold for any of the JSON decode exception classes.",
+  note="open/os.replace/pathlib and the JSON codec are assumed contracts; durability (fsync) is not decided. The field-wise round trip of the entity map through the model classes is a labelled bounded native stand-in (repository fixtures, fields of the property statement) - not a proof.",
+  ref="4/C20"),
 }
 
 def main():
